@@ -180,6 +180,32 @@ def run(ctx):
                         diffs.append(".pka text differs")
                 if diffs:
                     spec_bad.append((name, S, diffs[:4], text))
+                # the same with a --titrate_only list that names residues of the selected chains (a blank chain is '_' there)
+                sel_res = []
+                for l in pdbgen.lines_of(deleted):
+                    if l.startswith("ATOM") and l[17:20] in ("ASP", "GLU", "HIS", "LYS", "TYR", "ARG", "CYS"):
+                        e = "%s:%d%s" % (l[21] if l[21] != " " else "_", int(l[22:26]), l[26].strip())
+                        if e not in sel_res:
+                            sel_res.append(e)
+                if sel_res and (" " in S or rnd.random() < 0.3):
+                    lst = ["-i", ",".join(sel_res[:6])]
+                    p1 = observe.run(text, args + lst, want_text=True)
+                    p2 = observe.run(deleted, lst, want_text=True)
+                    ctx.count("selections combined with --titrate_only")
+                    d2 = []
+                    if (p1.error is None) != (p2.error is None):
+                        d2.append("error %r vs %r" % (p1.error, p2.error))
+                    elif p1.error is None:
+                        for c in p1.confs:
+                            d2 += observe.compare_groups(p1.confs[c], p2.confs.get(c, []), tol=0.0)[:3]
+                            ta = [(g["label"], g["titratable"]) for g in p1.confs[c]]
+                            tb = [(g["label"], g["titratable"]) for g in p2.confs.get(c, [])]
+                            if ta != tb:
+                                d2.append("%s: titratable flags differ: %r" % (c, [x for x, y in zip(ta, tb) if x != y][:3]))
+                        if p1.text != p2.text:
+                            d2.append(".pka text differs")
+                    if d2:
+                        spec_bad.append((name, S + lst, d2[:4], text))
     ctx.sample(dict(input=inputs[-1][0], first_lines=pdbgen.lines_of(inputs[-1][1])[:3], selection=meta[-2][1]))
     for name, S, a, b, text in parse_bad[:2]:
         ctx.violate("chains-parse:" + name, "get_atom_lines_from_pdb with chains=%r differs from parsing the file with the other chains deleted" % (S,),
